@@ -233,6 +233,11 @@ func calculateMaxCreation(params *datadoghqv1alpha1.ExtendedDaemonSetSpecStrateg
 	if err != nil {
 		return 0, err
 	}
+	// A zero (or negative) interval means that there is no waiting time between two steps of the slow start:
+	// only MaxParallelPodCreation applies (and dividing by it would panic).
+	if params.SlowStartIntervalDuration.Duration <= 0 {
+		return int(*params.MaxParallelPodCreation), nil
+	}
 	rollingUpdateDuration := now.Sub(rsStartTime)
 	nbSlowStartSlot := int(rollingUpdateDuration / params.SlowStartIntervalDuration.Duration)
 	result := (1 + nbSlowStartSlot) * startValue
